@@ -37,6 +37,7 @@ type Result struct {
 	Sample      json.RawMessage  `json:"sample,omitempty"`
 	Log         []string         `json:"log,omitempty"`
 	Executed    *Case            `json:"executed,omitempty"`
+	More        []*Result        `json:"more,omitempty"`
 }
 
 type Known struct {
